@@ -214,7 +214,10 @@ Definition manage_canary_status (rs : ers) (ann : eds_annots) (ocanary : option 
   let s := fold_left (canary_scan_node rs listed items) canary_nodes (MkCScan 0 0 0 0 false [] [] []) in
   bind (canary_evaluate ocanary unpaused now st0 failed0 paused0 paused_reason0 (cn_check s)) (fun lc =>
   let '(l, conds4) := lc in
-  let status_name := if cl_failed l then RS_CANARY_FAILED else RS_CANARY in
+  (* the status string is switched to canary-failed at the end of [manageCanaryPodFailures], which returns at once
+     when the spec has no canary strategy (D15): the string then stays "canary" even for a failed replica set *)
+  let status_name := if cl_failed l && match ocanary with Some _ => true | None => false end
+                     then RS_CANARY_FAILED else RS_CANARY in
   let new_status := MkErsStatus status_name (cn_desired s) (cn_current s) (cn_ready s) (cn_available s)
                                 (rs_ignored st0) conds4 in
   let do_create := negb (Nat.eqb (length (cn_create s)) 0) && negb (cl_paused l) && negb (cl_failed l) in
